@@ -1226,6 +1226,35 @@ def c03_extra():
             choices = Property(Array(Choice))
         return [Choice, Poll], {}
 
+    def same_shape_classes():
+        # two classes with the same keywords and properties but different names: equal under ==, distinct definitions
+        class BillingAddress(Object):
+            street = Property(String(), required=True)
+
+        class ShippingAddress(Object):
+            street = Property(String(), required=True)
+
+        class Order(Object):
+            bill = Property(BillingAddress)
+            ship = Property(Array(ShippingAddress))
+        return [Order], {}
+
+    def derived_same_shape():
+        class Base(Object):
+            v = Property(Integer())
+
+        class Derived(Base):
+            pass
+        return [Element(properties={"b": Property(Base), "d": Property(Derived)})], {}
+
+    def two_empty_classes():
+        class E1(Object):
+            pass
+
+        class E2(Object):
+            pass
+        return [Array([E1, E2])], {}
+
     def with_definitions():
         s = String(minLength=1)
         return [Element(properties={"a": Property(String(minLength=1)), "b": Property(Array(String(minLength=1)))})], {"definitions": {"nonempty": s}}
@@ -1234,7 +1263,8 @@ def c03_extra():
         class D(Object):
             k = Property(Integer(), required=True)
         return [Array(D)], {"definitions": {"extra": Integer(minimum=0)}}
-    return {"shared class": shared, "two roots": two_roots, "primary referenced by another root": primary_referenced,
+    return {"same-shaped classes": same_shape_classes, "derived same shape": derived_same_shape, "two empty classes": two_empty_classes,
+            "shared class": shared, "two roots": two_roots, "primary referenced by another root": primary_referenced,
             "caller definitions": with_definitions, "caller definitions + class": definitions_class,
             "empty tuple items closed": lambda: ([Array([], additionalItems=False)], {}), "items nothing": lambda: ([Array(Nothing())], {}),
             "empty tuple with additional": lambda: ([Element(items=[], additionalItems=Integer())], {}),
